@@ -28,3 +28,15 @@ let () =
     | None -> "STUCK conn=" ^ pat
     | Some (cols, nas) ->
       "na=" ^ show_ivec nas ^ " col=" ^ show_ivec (List.map (function None -> -1 | Some c -> c) cols) ^ " conn=" ^ pat)
+
+(* m.pmisdrop A parts eps2 : number of aggregate ids dropped by the renumbering ("drop empty aggregates") and number of
+   rounds' worth of fuel left -- evidence only (is the renumbering path exercised by the tie cases?) *)
+let () =
+  reg "m.pmisdrop" (fun t -> let a = t_crs t in let parts = t_ivec t in let eps2 = t_q t in
+    let g = Pmis.conn sc (box (parse_q "0")) a eps2 in
+    match Pmis.rounds parts g (Pmis.pmis_fuel parts g) (Pmis.init_world parts g) with
+    | None -> "STUCK"
+    | Some w ->
+      let w' = Pmis.renumber parts g w in
+      let sum l = List.fold_left (+) 0 l in
+      string_of_int (sum w.Pmis.w_na - sum w'.Pmis.w_na))
